@@ -110,6 +110,10 @@ func c16Common(g *Gen, sc *Scn, span int, cuts ...int) {
 		sc.SetInt("at", g.Range(0, span+1))
 		sc.SetInt("half", g.Intn(2))
 	}
+	if g.Bool(0.25) {
+		sc.SetInt("visitor", g.Range(0, 2*span)) // in half units
+		sc.SetInt("vstay", g.Range(0, span))
+	}
 }
 
 func genC16Delay(g *Gen) *Scn {
@@ -119,10 +123,6 @@ func genC16Delay(g *Gen) *Scn {
 	spec := c16Timeline(g, d, 6)
 	sc.Sources = []SrcSpec{spec}
 	c16Common(g, sc, c16ScriptSpan(spec)+2*d, 1)
-	if sc.Sub == "Delay" && g.Bool(0.3) {
-		sc.SetInt("visitor", g.Range(0, 2*(c16ScriptSpan(spec)+d))) // in half units
-		sc.SetInt("vstay", g.Range(0, 2*d))
-	}
 	return sc
 }
 
@@ -341,12 +341,45 @@ func (m c16Emit) String() string {
 	return "C@" + c16U(m.T)
 }
 
+// c16Tap logs what the source emits into the operator under test. Only the judged subscription is logged: a
+// visiting second subscriber (c16Visit) runs the cold source once more under a context that says so.
 func c16Tap(e *Env, log *[]c16Emit) func(ro.Observable[int]) ro.Observable[int] {
-	return ro.Tap(
-		func(v int) { *log = append(*log, c16Emit{K: 'N', V: v, T: e.K.Now(), Step: e.Step()}) },
-		func(err error) { *log = append(*log, c16Emit{K: 'E', Err: err, T: e.K.Now(), Step: e.Step()}) },
-		func() { *log = append(*log, c16Emit{K: 'C', T: e.K.Now(), Step: e.Step()}) },
+	visitor := func(ctx context.Context) bool { return ctx != nil && ctx.Value(c16VisitorKey{}) != nil }
+	return ro.TapWithContext(
+		func(ctx context.Context, v int) {
+			if !visitor(ctx) {
+				*log = append(*log, c16Emit{K: 'N', V: v, T: e.K.Now(), Step: e.Step()})
+			}
+		},
+		func(ctx context.Context, err error) {
+			if !visitor(ctx) {
+				*log = append(*log, c16Emit{K: 'E', Err: err, T: e.K.Now(), Step: e.Step()})
+			}
+		},
+		func(ctx context.Context) {
+			if !visitor(ctx) {
+				*log = append(*log, c16Emit{K: 'C', T: e.K.Now(), Step: e.Step()})
+			}
+		},
 	)
+}
+
+// c16Visit: with Ints[visitor] a second subscriber of the same observable comes (after visitor half units) and
+// goes (vstay half units later) while the judged subscription is being served: timers, queues, gates and
+// buffers belong to a subscription, not to the operator value.
+func c16Visit[T any](e *Env, o ro.Observable[T]) {
+	sc := e.Sc
+	at := sc.Int("visitor", -1)
+	if at < 0 {
+		return
+	}
+	e.Go("visitor", func() {
+		simSleep(time.Duration(at) * Unit / 2)
+		vctx := context.WithValue(context.Background(), c16VisitorKey{}, true)
+		vsub := o.SubscribeWithContext(vctx, ro.NewObserver(func(T) {}, func(error) {}, func() {}))
+		simSleep(time.Duration(sc.Int("vstay", 0)) * Unit / 2)
+		vsub.Unsubscribe()
+	})
 }
 
 func c16U(d time.Duration) string {
@@ -503,6 +536,7 @@ func c16Play[T any](e *Env, s *c16Session, o ro.Observable[T], obs ro.Observer[T
 	}
 	s.Sub0 = e.K.Now()
 	s.H = c16Subscribe(e, o, obs, ctx)
+	c16Visit(e, o)
 	if s.CutKind == 0 {
 		e.SettleFor(horizon)
 		c16Quiesce(e)
@@ -573,42 +607,12 @@ func runC16Delay(e *Env) {
 	spec := sc.Sources[0]
 	src := e.NewSrc(spec)
 	var emits []c16Emit
-	// only the judged subscription's emissions are logged: a visiting second subscriber (below) runs the
-	// cold source once more under a context that says so
-	isVisitor := func(ctx context.Context) bool { return ctx != nil && ctx.Value(c16VisitorKey{}) != nil }
-	tapped := ro.TapWithContext(
-		func(ctx context.Context, v int) {
-			if !isVisitor(ctx) {
-				emits = append(emits, c16Emit{K: 'N', V: v, T: e.K.Now(), Step: e.Step()})
-			}
-		},
-		func(ctx context.Context, err error) {
-			if !isVisitor(ctx) {
-				emits = append(emits, c16Emit{K: 'E', Err: err, T: e.K.Now(), Step: e.Step()})
-			}
-		},
-		func(ctx context.Context) {
-			if !isVisitor(ctx) {
-				emits = append(emits, c16Emit{K: 'C', T: e.K.Now(), Step: e.Step()})
-			}
-		},
-	)(src.Obs())
+	tapped := c16Tap(e, &emits)(src.Obs())
 	var o ro.Observable[int]
 	if sc.Sub == "Delay" {
 		o = ro.Delay[int](d)(tapped)
 	} else {
 		o = ro.DelayEach[int](d)(tapped)
-	}
-	if at := sc.Int("visitor", -1); at >= 0 {
-		// a second subscriber of the same observable comes and goes while the first one is being served:
-		// each subscription has its own timers and its own queue
-		e.Go("visitor", func() {
-			simSleep(time.Duration(at) * Unit / 2)
-			vctx := context.WithValue(context.Background(), c16VisitorKey{}, true)
-			vsub := o.SubscribeWithContext(vctx, ro.NewObserver(func(int) {}, func(error) {}, func() {}))
-			simSleep(time.Duration(sc.Int("vstay", 0)) * Unit / 2)
-			vsub.Unsubscribe()
-		})
 	}
 	rec := e.NewRec("o")
 	s := &c16Session{}
@@ -781,7 +785,8 @@ func runC16Timeout(e *Env) {
 	var drops []drop
 	prev := ro.OnDroppedNotification
 	ro.OnDroppedNotification = func(ctx context.Context, n fmt.Stringer) {
-		if str := n.String(); strings.HasPrefix(str, "Error("+c16TimeoutPrefix) {
+		// (the visiting subscriber's own timer is not the judged subscription's business)
+		if str := n.String(); strings.HasPrefix(str, "Error("+c16TimeoutPrefix) && (ctx == nil || ctx.Value(c16VisitorKey{}) == nil) {
 			drops = append(drops, drop{str, e.K.Now()})
 		}
 		prev(ctx, n)
